@@ -11,7 +11,10 @@ VENV_PY = "/venv/bin/python"
 
 
 def sanitize(s: str) -> str:
-    return re.sub(r"[^A-Za-z0-9_.=+-]+", "_", s)[:150]
+    s = s.replace(" / ", "__")
+    for a, b in (("**", "pow"), ("*", "mul"), ("/", "div"), (":+", ":add"), (":-", ":sub")):
+        s = s.replace(a, b)
+    return re.sub(r"[^A-Za-z0-9_.=+-]+", "_", s)[:170]
 
 
 def match_known(known: list[dict], oid: str, instances) -> dict | None:
